@@ -130,6 +130,31 @@ type c15MErr int
 
 func (e c15MErr) Error() string { return fmt.Sprintf("scripted marshal error %d", int(e)) }
 
+// c15RWrap: the scripted read error, as a reader in practice reports it — its own error, which may wrap one of the
+// well-known conditions (an end of stream met too early by a layer below, a closed pipe or file): a failure to
+// read all the same, never the clean end of the stream.
+type c15RWrap struct {
+	code  c15RErr
+	inner error
+}
+
+func (e c15RWrap) Error() string   { return e.code.Error() + ": " + e.inner.Error() }
+func (e c15RWrap) Unwrap() []error { return []error{e.code, e.inner} }
+
+func c15ReadFailure(code, how int) error {
+	switch how {
+	case 1:
+		return c15RWrap{c15RErr(code), io.EOF}
+	case 2:
+		return c15RWrap{c15RErr(code), io.ErrUnexpectedEOF}
+	case 3:
+		return c15RWrap{c15RErr(code), io.ErrClosedPipe}
+	case 4:
+		return fmt.Errorf("layer above: %w", c15RWrap{c15RErr(code), io.EOF})
+	}
+	return c15RErr(code)
+}
+
 var errC15Closed = errors.New("scripted: read on closed stream")
 
 // c15Src is the scripted reader (RtVerif.Stream.Src).
@@ -768,7 +793,7 @@ func c15ExecX(in []string) []string {
 	case in[9] == "eof":
 		src.term = io.EOF
 	case strings.HasPrefix(in[9], "e"):
-		src.term = c15RErr(proto.UnN(in[9][1:]))
+		src.term = c15ReadFailure(proto.UnN(in[9][1:]), c10Pick(in, 8))
 	default:
 		panic("C15: bad terminal " + in[9])
 	}
